@@ -31,15 +31,18 @@ func (x *Exec) callStep(f *frame, in *ssa.Call) {
 	if name == "" || x.X.bvMode || v.T == "" {
 		return
 	}
+	val := v.T
 	if _, ok := x.X.intInfoOf(in.Type()); !ok {
-		// pointers are references (Int): lastret("f") == 0 means the call returned nil
-		if _, isPtr := in.Type().Underlying().(*types.Pointer); !isPtr {
+		// pointers are references (Int): lastret("f") == 0 means the call returned nil; booleans are 0/1
+		if b, isB := in.Type().Underlying().(*types.Basic); isB && b.Info()&types.IsBoolean != 0 {
+			val = ite(v.T, "1", "0")
+		} else if _, isPtr := in.Type().Underlying().(*types.Pointer); !isPtr {
 			return
 		}
 	}
 	for _, cn := range []string{"Ghost_ret_" + sanitize(name), "Ghost_ret_" + sanitize(fmt.Sprintf("%s#%d", name, k))} {
 		if x.comps[cn] != "" {
-			f.st.heap[cn] = v.T
+			f.st.heap[cn] = val
 		}
 	}
 }
